@@ -431,6 +431,118 @@ fn ingredients_of(report: &Value) -> Vec<Value> {
     report["manifests"][active]["ingredients"].as_array().cloned().unwrap_or_default()
 }
 
+/// One builder mixing ingredient sources. `items[k] = (asset, source)`, source 'S' = stream, 'D' =
+/// ingredient JSON (taken from a scratch builder) + its resources added with `Builder::add_resource`
+/// (default identifiers; renamed only when the Builder's store already holds the identifier), 'A' =
+/// ingredient archive. Leading 'D' items go into the definition JSON (the classic "Builder model"),
+/// later ones through `Builder::add_ingredient`. Returns the model request fields
+/// (`ings=`, `builder=`) and the signed parent.
+fn build_mixed(fmt: &str, src: &[u8], items: &[(Asset, char)]) -> Result<(String, String, Parent), String> {
+    let st = json!({"verify": {"verify_trust": true, "remote_manifest_fetch": false, "ocsp_fetch": false}, "builder": {"generate_c2pa_archive": true}}).to_string();
+    let e = |x: c2pa::Error| format!("{x:?}");
+    let title = |k: usize| format!("mix{k}");
+    // prepared per item: ingredient JSON text + resources (D), archive bytes (A)
+    let mut djson: Vec<Option<(String, Vec<(String, Vec<u8>)>)>> = vec![];
+    let mut archives: Vec<Option<Vec<u8>>> = vec![];
+    for (k, (a, s)) in items.iter().enumerate() {
+        let mut d = None;
+        let mut ar = None;
+        if *s == 'D' || *s == 'A' {
+            let ctx = Context::new().with_settings(st.as_str()).map_err(e)?;
+            let mut scratch = Builder::from_context(ctx);
+            let lab = format!("ing{k}");
+            let ing = scratch.add_ingredient_from_stream(json!({"title": title(k), "relationship": "componentOf", "label": lab}).to_string(), &a.format, &mut Cursor::new(a.data.clone())).map_err(e)?;
+            if *s == 'D' {
+                let js = serde_json::to_string(&*ing).map_err(|x| x.to_string())?;
+                let res: Vec<(String, Vec<u8>)> = ing.resources().resources().iter().map(|(k, v)| (k.clone(), v.clone())).collect();
+                d = Some((js, res));
+            } else {
+                let mut out = Cursor::new(Vec::new());
+                scratch.write_ingredient_archive(&lab, &mut out).map_err(|x| format!("write_ingredient_archive: {x:?}"))?;
+                ar = Some(out.into_inner());
+            }
+        }
+        djson.push(d);
+        archives.push(ar);
+    }
+    // identifiers in the Builder's store (harness bookkeeping for the model request)
+    let mut builder_ids: Vec<(String, usize)> = vec![];
+    let mut specs: Vec<String> = vec![String::new(); items.len()];
+    let uniq = |k: usize, js: &mut String, res: &mut Vec<(String, Vec<u8>)>, builder_ids: &mut Vec<(String, usize)>| -> String {
+        let mut data_id = String::new();
+        for (id, _) in res.iter_mut() {
+            let is_data = js.contains(&format!("\"manifest_data\":{{\"format\":\"application/c2pa\",\"identifier\":\"{id}\"")) || id.starts_with("manifest_data");
+            if builder_ids.iter().any(|(b, _)| b == id) {
+                let new = format!("d{k}-{id}");
+                *js = js.replace(&format!("\"identifier\":\"{id}\""), &format!("\"identifier\":\"{new}\""));
+                *id = new;
+            }
+            builder_ids.push((id.clone(), k));
+            if is_data {
+                data_id = id.clone();
+            }
+        }
+        data_id
+    };
+    let lead = items.iter().take_while(|(_, s)| *s == 'D').count();
+    let mut def_ings: Vec<Value> = vec![];
+    let mut lead_res: Vec<(String, Vec<u8>)> = vec![];
+    for k in 0..lead {
+        let (mut js, mut res) = djson[k].clone().unwrap();
+        let id = uniq(k, &mut js, &mut res, &mut builder_ids);
+        specs[k] = format!("{id}/-");
+        def_ings.push(serde_json::from_str(&js).map_err(|x| x.to_string())?);
+        lead_res.extend(res);
+    }
+    let def = json!({
+        "title": "parent",
+        "format": fmt,
+        "claim_generator_info": [{"name": "verif-c39", "version": "1"}],
+        "assertions": [{"label": "c2pa.actions", "data": {"actions": [{"action": "c2pa.created", "digitalSourceType": "http://cv.iptc.org/newscodes/digitalsourcetype/digitalCapture"}]}}],
+        "ingredients": def_ings
+    });
+    let ctx = Context::new().with_settings(st.as_str()).map_err(e)?;
+    let mut b = Builder::from_context(ctx).with_definition(def.to_string().as_str()).map_err(|x| format!("definition: {x:?}"))?;
+    for (id, data) in lead_res {
+        b.add_resource(&id, Cursor::new(data)).map_err(|x| format!("add_resource {id}: {x:?}"))?;
+    }
+    for (k, (a, s)) in items.iter().enumerate().skip(lead) {
+        match s {
+            'S' => {
+                let i = b.add_ingredient_from_stream(json!({"title": title(k), "relationship": "componentOf", "label": format!("ing{k}")}).to_string(), &a.format, &mut Cursor::new(a.data.clone())).map_err(|x| format!("add_ingredient_from_stream: {x:?}"))?;
+                let id = i.manifest_data_ref().map(|r| r.identifier.clone()).unwrap_or_else(|| "nodata".into());
+                specs[k] = format!("{id}/{k}");
+            }
+            'D' => {
+                let (mut js, mut res) = djson[k].clone().unwrap();
+                let id = uniq(k, &mut js, &mut res, &mut builder_ids);
+                specs[k] = format!("{id}/-");
+                let ing = c2pa::Ingredient::from_json(&js).map_err(|x| format!("Ingredient::from_json: {x:?}"))?;
+                b.add_ingredient(ing);
+                for (rid, data) in res {
+                    b.add_resource(&rid, Cursor::new(data)).map_err(|x| format!("add_resource {rid}: {x:?}"))?;
+                }
+            }
+            _ => {
+                let mut ar = Cursor::new(archives[k].clone().unwrap());
+                let i = b.add_ingredient_from_archive(&mut ar).map_err(|x| format!("add_ingredient_from_archive: {x:?}"))?;
+                // (archive ingredients reference their manifest by label / JUMBF URI: unique)
+                let _ = i;
+                specs[k] = format!("arch{k}/{k}");
+            }
+        }
+    }
+    let signer = EphemeralSigner::new("verif-parent.test").map_err(e)?;
+    let mut out = Cursor::new(Vec::new());
+    b.sign(&signer, fmt, &mut Cursor::new(src.to_vec()), &mut out).map_err(|x| {
+        let s = format!("{x:?}");
+        format!("sign: {}", &s[..s.len().min(300)])
+    })?;
+    let (state, report, _) = read(fmt, out.get_ref(), &settings())?;
+    let bspec = if builder_ids.is_empty() { "-".to_string() } else { builder_ids.iter().map(|(i, k)| format!("{i}/{k}")).collect::<Vec<_>>().join(",") };
+    Ok((specs.join(","), bspec, Parent { state, report }))
+}
+
 fn main() {
     let args: Vec<String> = std::env::args().collect();
     if args.len() >= 2 && args[1] == "explore" {
@@ -885,6 +997,105 @@ pub fn run(run: &mut Run, rng: &mut Rng) {
                         }
                         let _ = p.state;
                     }
+                }
+            }
+        }
+    }
+    // F: builders MIXING ingredient sources (stream / definition JSON + Builder::add_resource under
+    // default, colliding identifiers / archive), every source combination of 2 and 3 ingredients in
+    // every order; for EVERY ingredient of the output the oracle of A applies (active manifest label,
+    // manifest present and unchanged in the output store, results, deltas)
+    let mix_pool: Vec<Asset> = ["signed-image/png", "signed-image/jpeg", "C.jpg", "CA.jpg", "chain-image/png", "tampered-image/gif", "signed-v1-image/jpeg", "signed-image/svg+xml", "signed-image/webp", "CACA.jpg"].iter().filter_map(|n| pool.iter().find(|a| a.name == *n).cloned()).collect();
+    // keep assets that read on their own and whose active manifests are pairwise different
+    let mix_pool: Vec<Asset> = {
+        let mut seen: Vec<String> = vec![];
+        mix_pool.into_iter().filter(|a| match read(&a.format, &a.data, &settings()) {
+            Ok((_, rep, _)) => match rep.get("active_manifest").and_then(|l| l.as_str()) {
+                Some(l) if !seen.iter().any(|x| x == l) => {
+                    seen.push(l.to_string());
+                    true
+                }
+                _ => false,
+            },
+            Err(_) => false,
+        }).collect()
+    };
+    let mut combos: Vec<Vec<char>> = vec![];
+    for a in ['S', 'D', 'A'] {
+        for b in ['S', 'D', 'A'] {
+            combos.push(vec![a, b]);
+            for c in ['S', 'D', 'A'] {
+                combos.push(vec![a, b, c]);
+            }
+        }
+    }
+    let rounds = if thorough { 8 } else { 1 };
+    for round in 0..rounds {
+        for combo in &combos {
+            if mix_pool.len() < 3 {
+                break;
+            }
+            let mut r = rng.fork();
+            // distinct assets (distinct active manifests)
+            let mut idxs: Vec<usize> = (0..mix_pool.len()).collect();
+            for i in (1..idxs.len()).rev() {
+                idxs.swap(i, r.below(i as u64 + 1) as usize);
+            }
+            let items: Vec<(Asset, char)> = combo.iter().enumerate().map(|(k, s)| {
+                let a = mix_pool[idxs[k]].clone();
+                // (version 1 assets are not archived, as in D)
+                let s = if *s == 'A' && a.kind == "signed-v1" { 'S' } else { *s };
+                (a, s)
+            }).collect();
+            let srcs: String = items.iter().map(|(_, s)| *s).collect();
+            let (pf, ps) = *r.pick(&parents);
+            let key = format!("F{round} parent={pf} sources={srcs} ingredients={}", items.iter().map(|(a, _)| a.name.clone()).collect::<Vec<_>>().join("+"));
+            run.count(&format!("mixed-sources:{srcs}"));
+            let alones: Vec<Result<(String, Value, Reader), String>> = items.iter().map(|(a, _)| read(&a.format, &a.data, &settings())).collect();
+            let labels: Vec<String> = alones.iter().map(|x| x.as_ref().ok().and_then(|(_, rep, _)| rep.get("active_manifest").and_then(|l| l.as_str()).map(|l| l.to_string())).unwrap_or_default()).collect();
+            let (pf2, ps2, items2) = (pf.to_string(), ps.clone(), items.clone());
+            match guarded(move || build_mixed(&pf2, &ps2, &items2)) {
+                Err(p) => {
+                    let idx = run.case(format!("C39 mix ings=? builder=? {srcs}"), "panic".into());
+                    run.fail(idx, "panic", format!("{key}: {p}"));
+                }
+                Ok(Err(e)) => {
+                    let idx = run.case(format!("C39 mix ings=? builder=? {srcs}"), "error".into());
+                    run.fail(idx, "mixed-source-builder-failed", format!("{key}: {e}"));
+                }
+                Ok(Ok((ispec, bspec, p))) => {
+                    let ings = ingredients_of(&p.report);
+                    // whose manifest does each ingredient (by title) carry?
+                    let carried: Vec<String> = (0..items.len()).map(|k| {
+                        let t = format!("mix{k}");
+                        match ings.iter().find(|i| i.get("title").and_then(|x| x.as_str()) == Some(t.as_str())) {
+                            None => "missing".to_string(),
+                            Some(i) => match i.get("active_manifest").and_then(|x| x.as_str()) {
+                                None => "none".to_string(),
+                                Some(l) => labels.iter().position(|x| x == l).map(|j| j.to_string()).unwrap_or("X".into()),
+                            },
+                        }
+                    }).collect();
+                    let idx = run.case(format!("C39 mix ings={ispec} builder={bspec} src={srcs}"), format!("carry {}", carried.join(",")));
+                    if ings.len() != items.len() {
+                        run.fail(idx, "ingredient-count-differs", format!("{key}: {} ingredients reported", ings.len()));
+                        continue;
+                    }
+                    let mut ok = true;
+                    for (k, (a, _)) in items.iter().enumerate() {
+                        let t = format!("mix{k}");
+                        match ings.iter().find(|i| i.get("title").and_then(|x| x.as_str()) == Some(t.as_str())) {
+                            None => {
+                                ok = false;
+                                run.fail(idx, "ingredient-missing", format!("{key}: no ingredient titled {t}"));
+                            }
+                            Some(i) => ok &= check_ingredient(run, idx, &format!("{key} [{t}={}]", a.name), i, &p.report, &alones[k], a.kind, 2),
+                        }
+                    }
+                    if ok {
+                        run.nontrivial(key);
+                    }
+                    let _ = p.state;
                 }
             }
         }
